@@ -322,6 +322,49 @@ pub fn c10(a: &Args) {
             }
         }
     }
+    // (4b) VALID text of every content class through the places that store text: layer titles (Layer::new, set_title, and an
+    //      IcyDraw save / load), font names, SAUCE strings.  Classes: a control character (none, C0, DEL, C1) x a multi-byte
+    //      character by the range of its continuation bytes (0x80..0x9F, 0xA0..0xBF; 2-, 3-, 4-byte) x their order - code that
+    //      rewrites text byte-wise (escaping, sanitising, truncating) is only right for some of these
+    {
+        let controls: [&str; 5] = ["", "\n", "\u{1}", "\u{7f}", "\u{85}"];
+        let multis: [&str; 8] = ["", "\u{e9}", "\u{df}", "\u{c0}", "\u{20ac}", "\u{4e2d}", "\u{1f600}", "\u{10ffff}"];
+        for (ci, c) in controls.iter().enumerate() {
+            for (mi, m) in multis.iter().enumerate() {
+                for order in 0..2 {
+                    let t = if order == 0 { format!("Stra{m}e{c}x") } else { format!("{c}a{m}") };
+                    let what = format!("c{ci}:m{mi}:o{order}");
+                    if !u.begin(&mut out, "text-class", &what) { continue; }
+                    let r = guard(|| {
+                        let l = Layer::new(t.clone(), (2, 1));
+                        let mut l2 = Layer::new("x", (2, 1));
+                        l2.set_title(t.clone());
+                        let mut doc = icy_doc(2, 1, 'A', &t);
+                        let mut f = BitFont::default();
+                        f.name = t.clone();
+                        doc.set_font(1, f);
+                        let mut o = SaveOptions::default();
+                        o.lossles_output = true;
+                        let back = doc.to_bytes("icy", &o).ok().and_then(|b| Buffer::from_bytes(Path::new("x.icy"), true, &b).ok());
+                        let (bt, bf) = match &back {
+                            Some(b) => (b.layers.first().map(|l| l.get_title().as_bytes().to_vec()), b.get_font(1).map(|f| f.name.as_bytes().to_vec())),
+                            None => (None, None),
+                        };
+                        (l.get_title().as_bytes().to_vec(), l2.get_title().as_bytes().to_vec(), bt, bf)
+                    });
+                    match r {
+                        Ok((a, b, bt, bf)) => {
+                            out.ev(&json!({"ev":"str","src":"text-class","what":format!("{what}:Layer::new"),"bytes":a}));
+                            out.ev(&json!({"ev":"str","src":"text-class","what":format!("{what}:set_title"),"bytes":b}));
+                            if let Some(x) = bt { out.ev(&json!({"ev":"str","src":"text-class","what":format!("{what}:icy-title"),"bytes":x})); }
+                            if let Some(x) = bf { out.ev(&json!({"ev":"str","src":"text-class","what":format!("{what}:icy-font-name"),"bytes":x})); }
+                        }
+                        Err(p) => out.ev(&json!({"ev":"cells","src":"text-class","what":what,"r":"panic","site":panic_site(&p),"codes":[]})),
+                    }
+                }
+            }
+        }
+    }
     // (5) characters beyond one byte reaching the parsers: UTF-8 text files (BOM) under every text extension, and `print_char`
     //     called with the character itself for every emulation - a parser that narrows the character (u8 / u16) must not
     //     build a cell from the narrowed value without checking it
